@@ -827,10 +827,10 @@ func monitor(sc scenario, r raw) string {
 // (connConfig → setupTLSConfig → defaultHostDialer.DialHost → WrapTLS → crypto/tls → Conn.init)
 
 type tlsScenario struct {
-	cfg   string            // nil | I<0|1>S<0|1>R<0|1>  (InsecureSkipVerify, ServerName "sn.example", RootCAs = the scenario CA)
+	cfg   string            // nil | I<0|1>S<0|1>R<0|1>  (InsecureSkipVerify, ServerName "sn.example", RootCAs = {pool CA})
 	ehv   bool              // EnableHostVerification
-	ca    string            // CaPath: absent | valid (the scenario CA)
-	certs map[string]string // node → certificate kind: good | peer | other | untrusted
+	ca    string            // CaPath: absent | valid (the file CA)
+	certs map[string]string // node → certificate kind: good | poolgood | peer | other | rogue
 	dials []string          // <node>:<n|i>  n = HostInfo has the node's name, i = no hostname (IP literal is used)
 }
 
@@ -903,18 +903,19 @@ func getTLSEnv() *tlsEnvT {
 		panic(err)
 	}
 	e := &tlsEnvT{nodes: map[string]*tlsNode{}, certs: map[string]*tls.Certificate{}, pool: x509.NewCertPool()}
-	ca, rogue := mkCA("verif-scenario-ca"), mkCA("verif-rogue-ca")
+	ca, poolCA, rogue := mkCA("verif-file-ca"), mkCA("verif-pool-ca"), mkCA("verif-rogue-ca")
 	e.caPath = filepath.Join(dir, "ca.pem")
 	if err := os.WriteFile(e.caPath, pem.EncodeToMemory(&pem.Block{Type: "CERTIFICATE", Bytes: ca.cert.Raw}), 0o600); err != nil {
 		panic(err)
 	}
-	e.pool.AddCert(ca.cert)
+	e.pool.AddCert(poolCA.cert) // the caller's own RootCAs know ANOTHER CA than the CaPath file
 	lo := []net.IP{net.IPv4(127, 0, 0, 1)}
 	for id, other := range map[string]string{"a": "b", "b": "a"} {
 		e.certs[id+"/good"] = mkLeaf(ca, []string{nodeNames[id], explicitServerName}, lo)
 		e.certs[id+"/peer"] = mkLeaf(ca, []string{nodeNames[other], explicitServerName}, lo)
 		e.certs[id+"/other"] = mkLeaf(ca, []string{"other.verif.example"}, nil)
-		e.certs[id+"/untrusted"] = mkLeaf(rogue, []string{nodeNames[id], explicitServerName}, lo)
+		e.certs[id+"/poolgood"] = mkLeaf(poolCA, []string{nodeNames[id], explicitServerName}, lo)
+		e.certs[id+"/rogue"] = mkLeaf(rogue, []string{nodeNames[id], explicitServerName}, lo)
 		ln, err := net.Listen("tcp", "127.0.0.1:0")
 		if err != nil {
 			panic(err)
